@@ -107,9 +107,10 @@ IsW(e) == e.ev = "W"
 Changes(s, e) == s.dur[e.obj].st # e.st \/ s.dur[e.obj].natt # e.natt   \* W that changes the durable record
 
 (* ---------------- C01: declared order ---------------- *)
-C01_BlockOrder(s, e) == (IsP(e) /\ Running(s) /\ D(s, e.obj).b >= 1) =>
+\* (the gate on the previous blocks also holds in a process that resumes the plan: durable statuses survive)
+C01_BlockOrder(s, e) == (IsP(e) /\ (Running(s) \/ Resumed(s)) /\ D(s, e.obj).b >= 1) =>
     /\ \A i \in 1..(D(s, e.obj).b - 1) : s.dur[ScopeName(i)].st = CO
-    /\ \A x \in Infl(s) : D(s, x).b \in {0, D(s, e.obj).b}
+    /\ Running(s) => \A x \in Infl(s) : D(s, x).b \in {0, D(s, e.obj).b}
 C01_ActionOrder(s, e) == (IsP(e) /\ Running(s) /\ D(s, e.obj).k = "act") =>
     LET d == D(s, e.obj) IN
     /\ d.a > 1 => s.lastOut[ActName(d.b, d.s, d.a - 1)] = "ok"
@@ -150,7 +151,7 @@ C03_BlockVerdict(s, e) == (IsW(e) /\ Executing(s) /\ D(s, e.obj).k = "blk" /\ Te
     /\ e.st = CO => (~exceeded /\ ~BlockChecksFailed(s, b))
     /\ (e.st = CO /\ Live(s) /\ ~BypassedScope(s, b)) => \A q \in SeqsOf(s, b) : Terminal(s.dur[q].st)
 C03_AfterFailedBlock(s, e) ==
-    /\ (IsP(e) /\ Running(s) /\ D(s, e.obj).b >= 1) => \A i \in 1..(D(s, e.obj).b - 1) : s.dur[ScopeName(i)].st # FA
+    /\ (IsP(e) /\ (Running(s) \/ Resumed(s)) /\ D(s, e.obj).b >= 1) => \A i \in 1..(D(s, e.obj).b - 1) : s.dur[ScopeName(i)].st # FA
     /\ (e.ev = "WaitRet" /\ Live(s)) =>
           ((\E x \in ToSet(e.snap) : D(s, x.obj).k = "blk" /\ x.st = FA) => SnapOf(e.snap)["p"].st = FA)
 
@@ -218,6 +219,16 @@ C05_Recorded(s, e) == (e.ev = "WaitRet" /\ Live(s)) =>
         /\ x.dig = DigStr(s.outs[x.obj])
         /\ x.last = "ok" => x.rtag = s.lastTag[x.obj]
         /\ x.last # "wrongtype-kept"
+\* an attempt is the record of ITS invocation: attempt i exists only once invocation i has returned (or overran its
+\* timeout), is of that invocation's kind and carries that invocation's response or error - not another one's
+LastLetter(l) == CASE l = "ok" -> "o" [] l = "timeout" -> "x" [] l \in {"wrongtype", "wrongtype-kept"} -> "w"
+                   [] l = "perm" -> "p" [] l = "tr" -> "t" [] OTHER -> "?"
+C05_AttemptIsItsCall(s, e) ==
+    (IsW(e) /\ Running(s) /\ D(s, e.obj).k \in {"act", "cact"} /\ e.natt >= 1 /\ e.natt <= Len(s.outs[e.obj])) =>
+        LET o == s.outs[e.obj][e.natt] IN
+        /\ o # "?"
+        /\ o = LastLetter(e.last)
+        /\ e.last \in {"ok", "tr", "perm"} => e.rtag = e.obj \o "@" \o ToString(s.rb[e.obj] + e.natt)
 C05_Overrun(s, e) == (e.ev = "PEnd" /\ e.out \in {"overrun", "lateok"}) => e.ctxdone
 
 (* ---------------- C06: bypass and pre-check gating ---------------- *)
@@ -237,6 +248,9 @@ C06_PreFailBlocks(s, e) ==
           /\ HasGroup(s, 0, "pre") => ~s.grpFail[Grp(0, "pre")]
           /\ HasGroup(s, D(s, e.obj).b, "pre") => ~s.grpFail[Grp(D(s, e.obj).b, "pre")]
     /\ (e.ev = "WaitRet" /\ Live(s) /\ ~BypassedScope(s, 0)) => (PlanGroupFailed(s, "pre") => SnapOf(e.snap)["p"].st = FA)
+    \* "the scope ends Failed" for a block: whatever its bypass group said before (a failed bypass runs the block normally)
+    /\ (e.ev = "WaitRet" /\ Live(s) /\ ~BypassedScope(s, 0)) =>
+          \A b \in 1..NB(s) : (~BypassedScope(s, b) /\ GroupFailed(s, b, "pre")) => SnapOf(e.snap)[ScopeName(b)].st = FA
 C06_ContInitialFail(s, e) ==
     \* no sequence action is invoked after a failed initial run ...
     /\ (IsP(e) /\ Running(s) /\ D(s, e.obj).k = "act") =>
@@ -246,6 +260,10 @@ C06_ContInitialFail(s, e) ==
     /\ (IsW(e) /\ Running(s) /\ D(s, e.obj).k = "chk" /\ D(s, e.obj).g = "cont" /\ e.st = FA
           /\ s.grpOpen[e.obj] /\ s.grpFirst[e.obj] = "none") =>
           \A q \in s.invoked : ~InScope(D(s, q), D(s, e.obj).b)
+    \* ... and the scope ends Failed
+    /\ (e.ev = "WaitRet" /\ Live(s) /\ ~BypassedScope(s, 0)) =>
+          \A sc \in 0..NB(s) : (~BypassedScope(s, sc) /\ HasGroup(s, sc, "cont") /\ s.grpFirst[Grp(sc, "cont")] = "fail") =>
+              SnapOf(e.snap)[ScopeName(sc)].st = FA
 
 (* ---------------- C07: continuous and deferred checks ---------------- *)
 C07_ContKeepsRunning(s, e) == e.ev = "HoldTimeout" => FALSE
@@ -349,7 +367,7 @@ ClauseNames == {
     "C03_Bound", "C03_StopExact", "C03_BlockVerdict", "C03_AfterFailedBlock",
     "C04_WaitReturns", "C04_Terminal", "C04_NothingRunning", "C04_Quiescent", "C04_Stable", "C04_Consistent", "C04_Times", "C04_Reason",
     "C04_FailedCheckFailsPlan",
-    "C05_Bound", "C05_StopOnFinal", "C05_OneAttemptPerCall", "C05_Recorded", "C05_Overrun",
+    "C05_Bound", "C05_StopOnFinal", "C05_OneAttemptPerCall", "C05_Recorded", "C05_Overrun", "C05_AttemptIsItsCall",
     "C06_BypassSkips", "C06_BypassFailRuns", "C06_PreFailBlocks", "C06_ContInitialFail",
     "C07_ContKeepsRunning", "C07_ContFailureFails", "C07_DeferredOnce", "C07_DeferredFails", "C07_DeferredNotAgain",
     "C08_RunningBeforeInvoke", "C08_AttemptBeforeNext", "C08_TerminalBeforeRelease", "C08_Monotone",
@@ -373,7 +391,7 @@ Holds(c, s, e) ==
       [] c = "C04_Reason" -> C04_Reason(s, e) [] c = "C04_FailedCheckFailsPlan" -> C04_FailedCheckFailsPlan(s, e)
       [] c = "C05_Bound" -> C05_Bound(s, e) [] c = "C05_StopOnFinal" -> C05_StopOnFinal(s, e)
       [] c = "C05_OneAttemptPerCall" -> C05_OneAttemptPerCall(s, e) [] c = "C05_Recorded" -> C05_Recorded(s, e)
-      [] c = "C05_Overrun" -> C05_Overrun(s, e)
+      [] c = "C05_Overrun" -> C05_Overrun(s, e) [] c = "C05_AttemptIsItsCall" -> C05_AttemptIsItsCall(s, e)
       [] c = "C06_BypassSkips" -> C06_BypassSkips(s, e) [] c = "C06_BypassFailRuns" -> C06_BypassFailRuns(s, e)
       [] c = "C06_PreFailBlocks" -> C06_PreFailBlocks(s, e) [] c = "C06_ContInitialFail" -> C06_ContInitialFail(s, e)
       [] c = "C07_ContKeepsRunning" -> C07_ContKeepsRunning(s, e) [] c = "C07_ContFailureFails" -> C07_ContFailureFails(s, e)
@@ -405,11 +423,11 @@ ClausesFor(t) ==
                         "C03_AfterFailedBlock", "C04_Quiescent", "C05_Bound", "C05_StopOnFinal", "C06_BypassSkips", "C06_PreFailBlocks",
                         "C06_ContInitialFail", "C08_RunningBeforeInvoke", "C08_AttemptBeforeNext", "C09_NoRedoAction", "C09_NoRedoFinished",
                         "C09_OnlyInFlight", "C10_Quiescent", "C11_Untouched", "C11_AgedOut", "C12_AtMostOnce", "C07_DeferredNotAgain"}
-    [] t = "W" -> {"C07_DeferredFails", "C03_Bound", "C03_StopExact", "C03_BlockVerdict", "C04_Quiescent", "C05_OneAttemptPerCall", "C06_ContInitialFail",
+    [] t = "W" -> {"C07_DeferredFails", "C03_Bound", "C03_StopExact", "C03_BlockVerdict", "C04_Quiescent", "C05_OneAttemptPerCall", "C05_AttemptIsItsCall", "C06_ContInitialFail",
                    "C07_ContFailureFails", "C08_TerminalBeforeRelease", "C10_Quiescent", "C11_Untouched", "C12_AtMostOnce"}
     [] t = "PEnd" -> {"C04_Quiescent", "C05_Overrun"}
     [] t = "WaitRet" -> {"C03_AfterFailedBlock", "C04_Terminal", "C04_NothingRunning", "C04_Quiescent", "C04_Consistent", "C04_Times", "C04_Reason",
-                         "C04_FailedCheckFailsPlan", "C05_Recorded", "C06_BypassSkips", "C06_BypassFailRuns", "C06_PreFailBlocks",
+                         "C04_FailedCheckFailsPlan", "C05_Recorded", "C06_BypassSkips", "C06_BypassFailRuns", "C06_PreFailBlocks", "C06_ContInitialFail",
                          "C07_ContFailureFails", "C07_DeferredOnce", "C07_DeferredFails", "C08_TerminalBeforeRelease",
                          "C10_Terminal", "C10_NothingRunning", "C10_Quiescent", "C10_Consistent", "C10_Times", "C10_DeferredRan", "C10_SameOutcome",
                          "C11_Untouched", "C11_AgedOut", "C11_Resumed"}
@@ -448,7 +466,7 @@ ObsPStart(s, e) ==
   LET d == D(s, e.obj) IN
   [s EXCEPT !.inflN[e.obj] = IF e.ov THEN @ ELSE @ + 1,
             !.tot[e.obj] = @ + 1,
-            !.outs[e.obj] = Append(@, "?"),
+            !.outs[e.obj] = Append(@, IF e.ov THEN "x" ELSE "?"),   \* an overrunning call can only be recorded as a timeout
             !.seqStarted = IF d.k = "act" THEN @ \cup {SeqName(d.b, d.s)} ELSE @,
             !.invoked = IF d.k = "act" THEN @ \cup {SeqName(d.b, d.s)} ELSE @,
             !.defStarted = IF d.k = "cact" /\ d.g = "deferred" THEN @ \cup {d.b} ELSE @]
